@@ -86,7 +86,7 @@ func VerifC19Catalog(h *verifh.H) {
 	vCatalogCheck(h, hub, names, gone, "initial")
 	nops := h.Param("ops", 2)
 	for k := 0; k < nops; k++ {
-		op := h.Choice("op", 7)
+		op := h.Choice("op", 7+h.Param("mirror", 0))
 		if h.Param("lifecycleOnly", 0) == 1 {
 			h.Assume(op == 3 || op == 5 || op == 6) // delete, re-create, restart
 		}
@@ -135,6 +135,27 @@ func VerifC19Catalog(h *verifh.H) {
 			delete(names, nameA)
 			gone[nameA] = true
 			cur = nameC
+		case 7: // the catalogue is mirrored: b receives a copy of the dataset's meta-entity
+			// (what a job with core.Dataset as its source writes), with a property of its own
+			if cur == "" {
+				h.Assume(false)
+			}
+			info, err := hub.Store.NamespaceManager.GetDatasetNamespaceInfo()
+			h.Assert(err == nil, "dataset namespace known")
+			res, err := hub.Dsm.GetDataset("core.Dataset").GetEntities("", -1)
+			h.Assert(err == nil, "core.Dataset readable")
+			for _, e := range res.Entities {
+				if n, _ := e.Properties[info.NameKey].(string); n != cur || e.IsDeleted {
+					continue
+				}
+				cp := NewEntity(e.ID, 0)
+				for k, v := range e.Properties {
+					cp.Properties[k] = v
+				}
+				cp.Properties["ns0:mirrored"] = "yes"
+				h.Assert(hub.Dsm.GetDataset("b").StoreEntities([]*Entity{cp}) == nil, "mirror accepted")
+				names["b"][e.ID] = true
+			}
 		case 5: // re-create
 			if cur != "" {
 				h.Assume(false)
